@@ -41,11 +41,31 @@ type c11Rec struct {
 func c11Doc(r *core.Rand, today ref.Date) (string, []c11Rec) {
 	n := r.PickInt(0, 1, 2, 2, 3, 3, 4, 5, 6)
 	var recs []c11Rec
-	day := today.Days() - r.Range(0, 2) - n
+	// a long tail (1 case in 16): more than a hundred recent records that exhibit no entry style at all (days off) or no
+	// time style (durations only) - the styles of the file are then exhibited by old records only
+	tail, tailKind := 0, 0
+	if n > 0 && r.Chance(1, 16) {
+		tail, tailKind = r.PickInt(101, 104, 130), r.PickInt(0, 0, 1)
+	}
+	day := today.Days() - r.Range(0, 2) - n - tail
 	for i := 0; i < n; i++ {
 		day += r.PickInt(1, 1, 1, 2)
 		recs = append(recs, c11Rec{date: ref.DateFromDays(day), dashes: r.Chance(2, 3), indent: r.Pick("    ", "  ", "   ", "\t"), eol: r.Pick("\n", "\n", "\r\n"),
 			kind: r.PickInt(0, 1, 2, 2, 3, 3), h12: r.Chance(1, 3), dashSpaces: r.Chance(2, 3), extraQ: r.PickInt(0, 0, 2, 4), summary: r.Chance(1, 3)})
+	}
+	if tail > 0 {
+		// the tail continues the style of the last regular record where it exhibits one (so ties stay rare and the
+		// old records' agreement is what an election has to find)
+		last := recs[len(recs)-1]
+		if r.Bool() {
+			for i := range recs { // unanimous old records
+				recs[i].indent, recs[i].h12, recs[i].dashSpaces, recs[i].extraQ, recs[i].dashes, recs[i].eol = last.indent, last.h12, last.dashSpaces, last.extraQ, last.dashes, last.eol
+			}
+		}
+		for i := 0; i < tail; i++ {
+			day++
+			recs = append(recs, c11Rec{date: ref.DateFromDays(day), dashes: last.dashes, indent: last.indent, eol: last.eol, kind: tailKind, summary: i%7 == 0})
+		}
 	}
 	var sb strings.Builder
 	ws := func(eol string) {
